@@ -87,6 +87,13 @@ def extLoopByName : Nat → List QE → LoopSt → Except Err LoopSt
         | .ok x => extLoopByName n q' (takeParam st e.pc.name v x)
       else extLoopByName n q' st
 
+/-- the parent test of the variant below: the entry carries the parent's stored value -/
+def flagId (e : QE) : Bool :=
+  match e.parent, e.pv with
+  | none, _ => true
+  | some (_, k), some pv => pyEq pv k
+  | some _, none => false
+
 /-- the variant that carries the parent's value with each child entry and enqueues the
 children of accepted parameters only (`fixes/c17-parent-by-value.diff`) -/
 def extLoopById : Nat → List QE → LoopSt → Except Err LoopSt
@@ -97,11 +104,7 @@ def extLoopById : Nat → List QE → LoopSt → Except Err LoopSt
     match lookup st.remaining e.pc.name with
     | none => extLoopById n q st
     | some v =>
-      let ok := match e.parent, e.pv with
-        | none, _ => true
-        | some (_, k), some pv => pyEq pv k
-        | some _, none => false
-      if ok then
+      if flagId e then
         match cast e.pc.h.ext v with
         | .error err => .error err
         | .ok x => extLoopById n (q ++ childEntries e.pc (some v)) (takeParam st e.pc.name v x)
@@ -157,6 +160,9 @@ def sortIdx : List (Nat × Option PVal) → List (Nat × Option PVal)
 def dictSet {β : Type} (d : List (String × β)) (k : String) (v : β) : List (String × β) :=
   if d.any (fun e => e.1 == k) then d.map (fun e => if e.1 == k then (k, v) else e) else d ++ [(k, v)]
 
+/-- dict lookup -/
+def dictGet {β : Type} (d : List (String × β)) (k : String) : Option β := (d.find? fun e => e.1 == k).map (·.2)
+
 /-- first pass: plain names go to `trial_final_values`, indexed ones are collected per
 base name (`multi_dim_params`, a defaultdict(list)) -/
 def splitNames : List (String × Option PVal) → List (String × Presented) × List (String × List (Nat × Option PVal))
@@ -166,8 +172,7 @@ def splitNames : List (String × Option PVal) → List (String × Presented) × 
     match parseIndexed n with
     | none => splitNames rest (dictSet fin n (.one v), multi)
     | some (base, i) =>
-      let cur := match multi.find? (fun e => e.1 == base) with | some e => e.2 | none => []
-      splitNames rest (fin, dictSet multi base (cur ++ [(i, v)]))
+      splitNames rest (fin, dictSet multi base ((dictGet multi base).getD [] ++ [(i, v)]))
 
 /-- second pass: every base name gets its values sorted by index (a plain parameter of the
 same name is overwritten) -/
